@@ -26,6 +26,11 @@ type OverMsg struct {
 	PartN   int    `json:"part_n,omitempty"`
 	// Ctl: a ping placed before the crossing frame (must not count).
 	Ping bool `json:"ping,omitempty"`
+	// Kind "withinbig": not an over-limit message at all - the limit is raised
+	// to 2^40 and a frame claims 2^27..2^31 bytes of which only PartN exist;
+	// only the memory clause (and error reporting) is judged.  ReadMsg reads it
+	// with ReadMessage instead of NextReader+Read.
+	ReadMsg bool `json:"read_msg,omitempty"`
 }
 
 // LimitCase exercises SetReadLimit.
@@ -107,7 +112,8 @@ func genLimitCase(t *rapid.T) LimitCase {
 			o.Pre = append(o.Pre, a)
 			budget -= a
 		}
-		o.Kind = rapid.SampledFrom([]string{"plus1", "plus1", "double", "2g", "max", "topbit"}).Draw(t, "okind")
+		o.Kind = rapid.SampledFrom([]string{"plus1", "plus1", "double", "2g", "max", "topbit", "withinbig"}).Draw(t, "okind")
+		o.ReadMsg = rapid.Bool().Draw(t, "oreadmsg")
 		o.Present = rapid.SampledFrom([]string{"all", "part", "none", "none"}).Draw(t, "opresent")
 		o.PartN = rapid.IntRange(1, 40).Draw(t, "opartn")
 		o.Ping = rapid.Bool().Draw(t, "oping")
@@ -160,7 +166,7 @@ func checkC06(c LimitCase, o *Obs) error {
 
 	// The over-limit message.
 	var overDelivered []byte // bytes that may be delivered for it
-	overflow, topbit := false, false
+	overflow, topbit, withinBig := false, false, false
 	var claim uint64
 	received := len(wire)
 	if ov := c.Over; ov != nil {
@@ -190,6 +196,9 @@ func checkC06(c LimitCase, o *Obs) error {
 			pings = append(pings, []byte("inside-over"))
 		}
 		switch ov.Kind {
+		case "withinbig":
+			claim = uint64(1) << uint(27+len(ov.Pre))
+			withinBig = true
 		case "double":
 			claim = uint64(2 * L)
 			if int64(claim)+sum <= L {
@@ -214,6 +223,9 @@ func checkC06(c LimitCase, o *Obs) error {
 			op = ov.Op
 		}
 		present := 0
+		if withinBig && ov.Present == "all" {
+			ov.Present = "part"
+		}
 		switch ov.Present {
 		case "all":
 			if !topbit && claim <= 4096 {
@@ -280,12 +292,26 @@ func checkC06(c LimitCase, o *Obs) error {
 		classifyLimit(c, model, o, false, false)
 		return checkWriteBack(tr.Wrote, c.R, pings, -1, false)
 	}
+	if withinBig {
+		conn.SetReadLimit(1 << 40)
+	}
 	before := heapAllocs()
 	var got []byte
 	var rerr error
 	var buf [512]byte
-	mt, r, err := conn.NextReader()
-	if err != nil {
+	var mt int
+	var r io.Reader
+	if c.Over.ReadMsg {
+		var p []byte
+		mt, p, err = conn.ReadMessage()
+		got, rerr = p, err
+		if err == nil {
+			rerr = io.EOF
+		}
+		if mt == websocket.TextMessage || mt == websocket.BinaryMessage {
+			err = nil // NextReader itself succeeded
+		}
+	} else if mt, r, err = conn.NextReader(); err != nil {
 		rerr = err
 	} else {
 		for {
@@ -307,6 +333,20 @@ func checkC06(c LimitCase, o *Obs) error {
 		after = append(after, e)
 	}
 	allocated := heapAllocs() - before
+	if withinBig {
+		if rerr == nil || rerr == io.EOF {
+			return fmt.Errorf("a message whose frame claims %d bytes but delivers only a few was reported complete (%d bytes)", claim, len(got))
+		}
+		if errors.Is(rerr, websocket.ErrReadLimit) {
+			return fmt.Errorf("ErrReadLimit for a %d-byte claim under a limit of 2^40", claim)
+		}
+		if bound := uint64(8<<20) + 8*uint64(received); allocated > bound {
+			return fmt.Errorf("%d bytes allocated while receiving %d wire bytes: memory depends on the length the frame header claims (%d; read via ReadMessage=%v)", allocated, received, claim, c.Over.ReadMsg)
+		}
+		o.Class("over_withinbig")
+		o.NonTrivial("")
+		return nil
+	}
 	if len(c.Over.Pre) == 0 && err == nil {
 		return fmt.Errorf("limit %d: the first frame claims %d bytes (> limit) but NextReader returned a message of type %d instead of refusing it at the header", L, claim, mt)
 	}
